@@ -33,6 +33,10 @@ CHECKS = {
    text="PARTIAL: the location calculus every diagnostic position is built with. Location::concat/left_main_concat/stream give the exact span for two ranges, a well-formed result for well-formed operands in source order, never invent a line, and are Unknown only if both operands are; accessors and Locational defaults return the stored coordinates; Token::loc places a token on its own line between its columns. Kani loop-free over all u32 coordinates (complete).",
    note="Not carried: that lowering attaches the right node's location to each error, that callers pass operands in source order, format_context/format_code_and_pointer rendering (string formatting over StyledStrings), and column bookkeeping in the lexer (C08).",
    technique=TECH_K),
+ "C15": dict(engine="verus+kani", category="proof",
+   text="PARTIAL: (reader, Verus, unbounded input length) Deserializer::take/take_byte/consume/deserialize_u32/deserialize_long/deserialize_bytes/deserialize_const never panic on any byte vector (every remove/drain/index is guarded; an allocation is never sized by an unchecked length field), return Err on short input, consume exactly what they decode, never grow the input, and terminate (recursion and loops of the tuple arms proved with a decreases measure). (writer) str_into_bytes and raw_string_into_bytes equal CPython's marshal encoding for every string below 4 GiB (Verus); ValueObj::into_bytes on Int, Nat (incl. the long format from 2**31), Float (bit-exact incl. -0.0, inf, NaN), Bool, None equals the marshal format, the type-byte table inverts, and reader(writer(x) ++ rest) == x on all those scalars (Kani, loop-free / bounded only by the 5 digits of a u64).",
+   note="Assumed: std contracts of Vec::drain/remove/insert/with_capacity, from_le_bytes/to_le_bytes, String::from_utf8; CodeObj::from_bytes as a callee of the Code arm (consumes >= 1 byte on success, never grows the input); the string and tuple arms of the reader are checked for totality only (their values go through interning caches); the Nat round trip is by transitivity through the marshal long format (writer == format, reader(format) == value). Bounded stand-in, not counted: vec_to_bytes<2|4|8> on vectors up to 10 bytes, raw_string_into_bytes on 2 bytes (Kani). Not carried: CodeObj::into_bytes/from_bytes field sequence, strs_into_bytes/tuple_into_bytes loops, CPython's unmarshaller itself (used as the oracle in replay only).",
+   technique=TECH_V + " + " + TECH_K),
  "C16": dict(engine="kani", category="proof",
    text="For every byte, each version table (impl_u8_enum! expansions Opcode308/309/310/311, CommonOpcode) maps it to a variant whose number equals dis.opmap of the matching CPython; is_jump_op agrees with dis.hasjrel/hasjabs on every opcode codegen.rs names, for 3.7-3.11; jump_abs_addr_309/310/311 equal CPython's target formula; magic bytes round-trip for every u16 and get_ver_from_magic_num maps each installed interpreter's magic to its version. Loop-free Kani harnesses over the full domain (complete).",
    note="External contract: the tables of the installed CPython 3.6-3.12 (read at run time; committed snapshot only as fallback). The emit set is computed textually from codegen.rs (version guards not analysed). Variants absent from an interpreter are reported, not obligations.",
